@@ -226,7 +226,7 @@ pub mod fs {
 
     pub const NFILES: usize = 8;
     pub const FSIZE: usize = 256;
-    pub const LOGCAP: usize = 160;
+    pub const LOGCAP: usize = 224;
 
     pub static mut DATA: crate::verif_models::Tg<[[u8; FSIZE]; NFILES]> = crate::verif_models::Tg { v: [[0; FSIZE]; NFILES], tag: 0x5eedc0de00000006 };
     pub static mut LEN: crate::verif_models::Tg<[usize; NFILES]> = crate::verif_models::Tg { v: [0; NFILES], tag: 0x5eedc0de00000007 };
@@ -809,6 +809,132 @@ pub mod fmtm {
         std::fmt::format(args)
     }
 
+    // ---- structured model of `format!` / `println!` (selected per harness with STRUCTURED) ----
+    // [measured] real core::fmt (Arguments, dyn Display vtables, Formatter::pad_integral) does not finish under CBMC
+    // even for concrete values (40 min). The structured model renders `"lit{}lit{: <9}..."` as the concatenation of
+    // the literal pieces and the Display text of each argument, where the Display text of the types the callbacks
+    // print is written out here: unsigned/signed integers = decimal, str/String = the text, sha256d::Hash = hex of
+    // the bytes in reverse order; anything else falls back to the real Display. Trusted: that this is what
+    // core::fmt does for `{}` and `{: <N}`; cross-checked natively against the real `format!` by bin/modeltest
+    // and on every native replay (the cfg(test) path compares both and panics with VERIF_MODEL_MISMATCH).
+    pub static mut STRUCTURED: crate::verif_models::Tg<bool> = crate::verif_models::Tg { v: false, tag: 0x5eedc0de0000f0f1 };
+    pub static mut MAX_DIGITS: crate::verif_models::Tg<usize> = crate::verif_models::Tg { v: 20, tag: 0x5eedc0de0000f0f2 };
+    pub struct W<'a, T: ?Sized>(pub &'a T);
+    pub trait Spec { fn spec(&self, o: &mut Out); }
+    fn dec(mut v: u64, neg: bool, o: &mut Out) {
+        let mut d = [0u8; 20];
+        let mut n = 0;
+        // at most 20 digits: the counter is concrete, so symbolic execution stops unrolling there whatever the unwind bound.
+        // A harness that bounds its numbers may lower the limit (MAX_DIGITS): the text length then has few cases
+        // ([measured] 20 potential lengths per number made a one-row file cost 380 s / 8 GiB). The hint is checked,
+        // not assumed: a number that needs more digits fails VERIF_MODEL:digit_hint_too_small (never a property label;
+        // natively the limit is always 20, so such a counterexample does not reproduce and the check ends inconclusive).
+        let lim = if cfg!(test) { 20 } else { unsafe { MAX_DIGITS.v } };
+        while n < lim {
+            d[n] = b'0' + (v % 10) as u8;
+            v /= 10;
+            n += 1;
+            if v == 0 { break; }
+        }
+        assert!(v == 0, "VERIF_MODEL:digit_hint_too_small");
+        if neg { o.put(b'-'); }
+        while n > 0 { n -= 1; o.put(d[n]); }
+    }
+    impl Spec for u8 { fn spec(&self, o: &mut Out) { dec(*self as u64, false, o) } }
+    impl Spec for u16 { fn spec(&self, o: &mut Out) { dec(*self as u64, false, o) } }
+    impl Spec for u32 { fn spec(&self, o: &mut Out) { dec(*self as u64, false, o) } }
+    impl Spec for u64 { fn spec(&self, o: &mut Out) { dec(*self, false, o) } }
+    impl Spec for usize { fn spec(&self, o: &mut Out) { dec(*self as u64, false, o) } }
+    impl Spec for i32 { fn spec(&self, o: &mut Out) { dec(self.unsigned_abs() as u64, *self < 0, o) } }
+    impl Spec for i64 { fn spec(&self, o: &mut Out) { dec(self.unsigned_abs(), *self < 0, o) } }
+    impl Spec for str { fn spec(&self, o: &mut Out) { let b = self.as_bytes(); let mut i = 0; while i < b.len() { o.put(b[i]); i += 1; } } }
+    impl Spec for String { fn spec(&self, o: &mut Out) { self.as_str().spec(o) } }
+    impl Spec for bitcoin::hashes::sha256d::Hash {
+        fn spec(&self, o: &mut Out) {
+            let b: &[u8; 32] = bitcoin::hashes::Hash::as_byte_array(self);
+            let hex = b"0123456789abcdef";
+            let mut i = 32;
+            while i > 0 { i -= 1; o.put(hex[(b[i] >> 4) as usize]); o.put(hex[(b[i] & 15) as usize]); }
+        }
+    }
+    impl<T: Spec + ?Sized> Spec for &T { fn spec(&self, o: &mut Out) { (**self).spec(o) } }
+    // autoref-ordered dispatch: S1 (modelled types) before S2 (any Display: real formatting) before S3 (anything: nothing)
+    pub trait S1 { fn vshow(&self, o: &mut Out); }
+    pub trait S2 { fn vshow(&self, o: &mut Out); }
+    pub trait S3 { fn vshow(&self, o: &mut Out); }
+    impl<'a, T: Spec + ?Sized> S1 for &W<'a, T> { fn vshow(&self, o: &mut Out) { self.0.spec(o) } }
+    impl<'a, T: core::fmt::Display + ?Sized> S2 for &&W<'a, T> {
+        fn vshow(&self, o: &mut Out) { let s = std::fmt::format(format_args!("{}", self.0)); s.as_str().spec(o); }
+    }
+    impl<'a, T: ?Sized> S3 for W<'a, T> { fn vshow(&self, _o: &mut Out) {} }
+    pub const SCAP: usize = 240;
+    pub struct Out { fmt: &'static [u8], at: usize, buf: [u8; SCAP], n: usize, width: usize, start: usize }
+    impl Out {
+        pub fn new(fmt: &'static str) -> Out { Out { fmt: fmt.as_bytes(), at: 0, buf: [0; SCAP], n: 0, width: 0, start: 0 } }
+        pub fn put(&mut self, b: u8) { if self.n < SCAP { self.buf[self.n] = b; } self.n += 1; }
+        /// copies literal text up to the next placeholder and consumes the placeholder (`{}` or `{: <N}`)
+        pub fn lit(&mut self) {
+            while self.at < self.fmt.len() && self.fmt[self.at] != b'{' { let b = self.fmt[self.at]; self.put(b); self.at += 1; }
+            self.width = 0;
+            if self.at < self.fmt.len() {
+                self.at += 1; // '{'
+                if self.fmt[self.at] == b':' {
+                    self.at += 3; // ": <"
+                    while self.fmt[self.at] != b'}' { self.width = self.width * 10 + (self.fmt[self.at] - b'0') as usize; self.at += 1; }
+                }
+                self.at += 1; // '}'
+            }
+            self.start = self.n;
+        }
+        pub fn pad(&mut self) { while self.n - self.start < self.width { self.put(b' '); } }
+        pub fn finish(mut self) -> String {
+            while self.at < self.fmt.len() { let b = self.fmt[self.at]; self.put(b); self.at += 1; }
+            let n = if self.n < SCAP { self.n } else { SCAP };
+            let mut v: Vec<u8> = Vec::with_capacity(SCAP);
+            let mut i = 0;
+            while i < n { v.push(self.buf[i]); i += 1; }
+            // all pieces are ASCII or come from str values
+            unsafe { String::from_utf8_unchecked(v) }
+        }
+    }
+    /// placeholders the structured model understands: `{}` and `{: <N}`; no escapes
+    pub fn simple(fmt: &str) -> bool {
+        let b = fmt.as_bytes();
+        let mut i = 0;
+        while i < b.len() {
+            if b[i] == b'}' { return false; }
+            if b[i] == b'{' {
+                i += 1;
+                if i >= b.len() { return false; }
+                if b[i] == b':' {
+                    if i + 3 >= b.len() || b[i + 1] != b' ' || b[i + 2] != b'<' || !(b[i + 3] >= b'0' && b[i + 3] <= b'9') { return false; }
+                    i += 3;
+                    while i < b.len() && b[i] >= b'0' && b[i] <= b'9' { i += 1; }
+                }
+                if i >= b.len() || b[i] != b'}' { return false; }
+            }
+            i += 1;
+        }
+        true
+    }
+    pub fn use_structured(fmt: &str) -> bool { let on = unsafe { STRUCTURED.v }; on && simple(fmt) }
+    /// native replay: the model must agree with the real formatting machinery
+    pub fn cross_check(model: String, _real: core::fmt::Arguments<'_>) -> String {
+        #[cfg(test)]
+        {
+            let r = std::fmt::format(_real);
+            if r != model { panic!("VERIF_MODEL_MISMATCH format model {:?} vs core::fmt {:?}", model, r); }
+        }
+        model
+    }
+    pub fn println_structured(s: String) {
+        let mut w = Sink;
+        let _ = core::fmt::Write::write_str(&mut w, s.as_str());
+        let _ = core::fmt::Write::write_str(&mut w, "\n");
+        unsafe { LINES.v += 1; }
+        core::mem::forget(s);
+    }
+
     // println! shadow (opreturn.rs): formats with the real core::fmt into a ghost buffer
     pub const OUTCAP: usize = 512;
     pub static mut OUT: crate::verif_models::Tg<[u8; OUTCAP]> = crate::verif_models::Tg { v: [0; OUTCAP], tag: 0x5eedc0de0000003c };
@@ -834,5 +960,56 @@ pub mod fmtm {
         let _ = core::fmt::write(&mut w, args);
         let _ = core::fmt::Write::write_str(&mut w, "\n");
         unsafe { LINES.v += 1; }
+    }
+}
+
+// Native cross-check of the structured format model against the real core::fmt (run by bin/modeltest through
+// `cargo kani playback`, i.e. compiled natively with cfg(kani) and cfg(test)).
+#[cfg(test)]
+mod model_tests {
+    use super::fmtm::*;
+    fn one<A: core::fmt::Display, B: core::fmt::Display>(a: &A, b: &B, ma: impl Fn(&mut Out), mb: impl Fn(&mut Out)) {
+        let mut o = Out::new("x-{}-{: <9}|{}.csv\n");
+        o.lit(); ma(&mut o); o.pad();
+        o.lit(); mb(&mut o); o.pad();
+        o.lit(); ma(&mut o); o.pad();
+        let got = o.finish();
+        let want = std::format!("x-{}-{: <9}|{}.csv\n", a, b, a);
+        assert_eq!(got, want);
+    }
+    #[test]
+    fn fmt_model_matches_core_fmt() {
+        unsafe { STRUCTURED.v = true; }
+        assert!(use_structured("{};{}\n") && use_structured("height: {: <9} txid: {}    data: {}") && use_structured("abc"));
+        assert!(!use_structured("{:?}") && !use_structured("{{}}") && !use_structured("{x}") && !use_structured("{:>4}") && !use_structured("{0}") && !use_structured("{:.2}"));
+        let vals: [u64; 14] = [0, 1, 9, 10, 11, 99, 100, 999, 1000, 65535, 4294967295, 4294967296, 9999999999999999999, u64::MAX];
+        for v in vals {
+            let w = v.wrapping_mul(0x9e3779b97f4a7c15);
+            one(&v, &w, |o| (&&W(&v)).vshow(o), |o| (&&W(&w)).vshow(o));
+            let (a, b) = (v as u32, w as u8);
+            one(&a, &b, |o| (&&W(&a)).vshow(o), |o| (&&W(&b)).vshow(o));
+            let (a, b) = (v as i32, w as i64);
+            one(&a, &b, |o| (&&W(&a)).vshow(o), |o| (&&W(&b)).vshow(o));
+            let (a, b) = (v as usize, w as u16);
+            one(&a, &b, |o| (&&W(&a)).vshow(o), |o| (&&W(&b)).vshow(o));
+            let mut hb = [0u8; 32];
+            for (i, x) in hb.iter_mut().enumerate() { *x = (w >> (i % 8)) as u8 ^ (i as u8).wrapping_mul(37); }
+            let h: bitcoin::hashes::sha256d::Hash = bitcoin::hashes::Hash::from_byte_array(hb);
+            let s = std::format!("addr{}", v);
+            one(&h, &s, |o| (&&W(&h)).vshow(o), |o| (&&W(&s)).vshow(o));
+            let (r, rr): (&str, &&str) = (s.as_str(), &s.as_str());
+            one(&r, rr, |o| (&&W(&r)).vshow(o), |o| (&&W(rr)).vshow(o));
+            let rh = &h;
+            one(&rh, &"", |o| (&&W(&rh)).vshow(o), |o| (&&W(&"")).vshow(o));
+            // a type the model does not know: falls back to the real Display
+            let f = v as f64 / 8.0;
+            let c = 'c';
+            one(&f, &c, |o| (&&W(&f)).vshow(o), |o| (&&W(&c)).vshow(o));
+        }
+        // a type without Display renders nothing (only reachable when the format string is not `simple`)
+        struct NoDisplay;
+        let mut o = Out::new("a{}b");
+        o.lit(); (&&W(&NoDisplay)).vshow(&mut o); o.pad();
+        assert_eq!(o.finish(), "ab");
     }
 }
